@@ -161,14 +161,23 @@ def keys_read():
                 and not e.value.id[:1].isupper():
             return consts[e.attr]          # module.NAME
         return ast.unparse(e)
+    passthrough = set()       # functions that hand one of their own parameters to get_info: their call sites name the keys
     for f in _src_files():
         tree = instrument.parse_file(f)
+        for fn_ in [x for x in ast.walk(tree) if isinstance(x, (ast.FunctionDef, ast.AsyncFunctionDef))]:
+            params = set(a_.arg for a_ in fn_.args.posonlyargs + fn_.args.args + fn_.args.kwonlyargs)
+            for n in ast.walk(fn_):
+                if isinstance(n, ast.Call) and isinstance(n.func, ast.Attribute) and n.func.attr == "get_info" and n.args \
+                        and isinstance(n.args[0], ast.Name) and n.args[0].id in params:
+                    n._param_key = True
+                    if fn_.name != "get_info":
+                        passthrough.add(fn_.name)
         for n in ast.walk(tree):
             if isinstance(n, ast.Call) and isinstance(n.func, ast.Attribute) and n.func.attr in ("_set_info", "get_info") and n.args:
                 k = keytext(n.args[0])
                 if n.func.attr == "_set_info":
                     written.add(k)
-                elif k != "key":
+                elif k != "key" and not getattr(n, "_param_key", False):
                     read.add(k)
                     where.setdefault(k, []).append(os.path.relpath(f, repo_root()))
             if isinstance(n, ast.Subscript) and isinstance(n.value, ast.Attribute) and n.value.attr == "global_info":
@@ -179,8 +188,11 @@ def keys_read():
     for f in _src_files():
         tree = instrument.parse_file(f)
         for n in ast.walk(tree):
-            if isinstance(n, ast.Call) and isinstance(n.func, ast.Attribute) and n.func.attr == "allow_matching_substring" and n.args:
-                read.add(keytext(n.args[0]))
+            if isinstance(n, ast.Call) and isinstance(n.func, (ast.Attribute, ast.Name)) and n.args \
+                    and (n.func.attr if isinstance(n.func, ast.Attribute) else n.func.id) in (passthrough | {"allow_matching_substring"}):
+                a0 = n.args[0]
+                if not (isinstance(a0, ast.Name) and a0.id in ("key", "self", "cls")):
+                    read.add(keytext(a0))
     missing = sorted(k for k in read if k not in written)
     return [simple_ob("JASMConfig:keys-read-subset-written", JC + ".get_info", "FRAME",
                       f"every key read ({sorted(read)}) is among the keys load_config writes ({sorted(written)})",
@@ -247,7 +259,14 @@ def frame_scan():
                         found.append((base, f"default:{n.name}(mutable default argument)"))
                 for dec in n.decorator_list:
                     dn = ast.unparse(dec)
-                    if any(x in dn for x in ("lru_cache", "cache", "cached_property", "memo")):
+                    if "cached_property" in dn:
+                        # per-INSTANCE state: process-global only when the class keeps a singleton (`_instance`)
+                        owner = next((c_ for c_ in ast.walk(tree) if isinstance(c_, ast.ClassDef) and n in c_.body), None)
+                        single = owner is not None and any(isinstance(x, ast.Name) and x.id == "_instance" or isinstance(x, ast.Attribute) and x.attr == "_instance"
+                                                           for x in ast.walk(owner))
+                        if single:
+                            found.append((base, f"cache:{n.name}@{dn} (on a singleton)"))
+                    elif any(x in dn for x in ("lru_cache", "cache", "memo")):
                         found.append((base, f"cache:{n.name}@{dn}"))
     extra = sorted(set(x for x in found if x not in ALLOWED_GLOBAL_STATE))
     ob = simple_ob("FRAME:global-state", "src/jasm (all modules)", "FRAME",
